@@ -187,9 +187,14 @@ def run(ctx):
         lc = rng.randrange(5); lp = rng.randrange(5 - lc); pb = rng.randrange(5)
         fs = 'lzma2:dict=%s,lc=%d,lp=%d,pb=%d,mode=%s,mf=%s,nice=%d' % (rng.choice(['4KiB', '64KiB']), lc, lp, pb, rng.choice(['fast', 'normal']), rng.choice(['hc3', 'hc4', 'bt2', 'bt4']), rng.choice([4, 32, 273]))
         steps = []; left = n
-        for _j in range(rng.randrange(0, 4)):
-            kk = rng.randrange(0, left + 1); left -= kk; steps.append('S%d' % kk)
-            if rng.random() < 0.5:
+        many = (i % 3 == 0)
+        if many:      # many small pieces, each closed by a sync flush, on low-entropy runs
+            n = rng.randrange(500, 4000); d = xzgen.gen_runs(rng, n); left = n
+            fs = 'lzma2:dict=64KiB,mode=%s,mf=%s,nice=%d' % (rng.choice(['fast', 'normal']), rng.choice(['bt2', 'bt3', 'bt4', 'hc4']), 32 + rng.randrange(200))
+        for _j in range(rng.randrange(0, 4) if not many else 60):
+            kk = rng.randrange(0, left + 1) if not many else min(left, 1 + rng.randrange(200)); left -= kk; steps.append('S%d' % kk)
+            if many and left == 0: break
+            if not many and rng.random() < 0.5:
                 lc2 = rng.randrange(5); lp2 = rng.randrange(5 - lc2); steps.append('Ulzma2:dict=%s,lc=%d,lp=%d,pb=%d' % (fs.split('dict=')[1].split(',')[0], lc2, lp2, rng.randrange(5)))
         steps.append('R%d' % left)
         l2lines.append('flush 3 0 %d %s %s %s' % (rng.randrange(1 << 20), fs, ';'.join(steps), d.hex() or '-')); l2meta.append((d, fs + ' ' + ';'.join(steps)))
